@@ -141,3 +141,51 @@ Theorem C16_example_state :
   mk_mgr (mk_vnm ["c"; ""; ""; ""; "a"; "f"] [("f", 5%N); ("a", 4%N); ("c", 0%N)]) 6 6.
 Proof. exact ex_state. Qed.
 Print Assumptions C16_example_state.
+
+(** ** ALL histories (HIST): [add_vars] inside the manager state machine of Mgr/History.v
+    (node table + handles + apply cache + substitution objects; plain BDD kind) *)
+From Coq Require Import Arith FMapPositive.
+From OxiVerif Require Import DD.Table DD.TableProofs DD.Sem DD.Apply DD.ApplyProofs DD.ApplyEvalProofs
+  Mgr.History Mgr.HistoryProofs Mgr.HistoryThms Mgr.HistoryExamples.
+
+(* in any state the invariant holds in (so: after any history) adding [k] variables touches no node
+   and no slot, the new variables sit below all others, every stored function is still stored,
+   and it is the old function, which ignores the new variables *)
+Theorem C16_hist_add_vars_keeps_functions :
+  forall (gt : ref -> ref -> bool) (C : Type) (cget : C -> N -> list ref -> option ref)
+         (cadd : C -> N -> list ref -> ref -> C) (cempty : C)
+         (st : hstate C) (k : nat) (st' : hstate C),
+  HInv C cget st -> hstep gt C cget cadd cempty st (HAddVars k) = Some st' ->
+  Table.nlevels (h_s C st') = Table.nlevels (h_s C st) + k /\
+  s_nodes (h_s C st') = s_nodes (h_s C st) /\
+  s_handles (h_s C st') = s_handles (h_s C st) /\
+  (forall v, v < Table.nlevels (h_s C st) ->
+     nth_error (s_v2l (h_s C st')) v = nth_error (s_v2l (h_s C st)) v) /\
+  (forall i, i < k ->
+     nth_error (s_v2l (h_s C st')) (Table.nlevels (h_s C st) + i) = Some (Table.nlevels (h_s C st) + i)) /\
+  forall r, ref_ok (h_s C st) r ->
+    ref_ok (h_s C st') r /\
+    forall a a', (forall v, v < Table.nlevels (h_s C st) -> a v = a' v) ->
+      bfun_of (h_s C st') r a = bfun_of (h_s C st) r a'.
+Proof. exact hist_add_vars. Qed.
+Print Assumptions C16_hist_add_vars_keeps_functions.
+
+(* ... and the invariant (well-formed table, valid cache - which [add_vars] does NOT clear -,
+   consistent substitution objects) holds again, every slot keeps edge and function *)
+Theorem C16_hist_add_vars_step :
+  forall (gt : ref -> ref -> bool) (C : Type) (cget : C -> N -> list ref -> option ref)
+         (cadd : C -> N -> list ref -> ref -> C), lossy cget cadd ->
+  forall cempty : C, (forall k a, cget cempty k a = None) ->
+  forall (st : hstate C) (k : nat), HInv C cget st ->
+  exists st', hstep gt C cget cadd cempty st (HAddVars k) = Some st' /\
+              HInv C cget st' /\ hframe C st (HAddVars k) st' /\ hpost C st (HAddVars k) st'.
+Proof. exact (fun gt C cget cadd L cempty He st k I => hstep_ok gt C cget cadd L cempty He st (HAddVars k) I Logic.I). Qed.
+Print Assumptions C16_hist_add_vars_step.
+
+(* non-vacuity: in [ex_ops] (Mgr/HistoryExamples.v) a variable is added after 19 calls (with a
+   non-empty cache and a live substitution object) and used afterwards *)
+Theorem C16_hist_example :
+  hrun gtA acache ac_get ac_add nil (hinit acache nil 3) ex_ops = Some ex_stA /\
+  s_l2v (h_s acache ex_stA) = (2 :: 0 :: 1 :: 3 :: nil) /\ wf_b (h_s acache ex_stA) = true.
+Proof. exact (conj ex_runA (conj (proj1 (proj2 ex_stA_shape)) (proj1 ex_wfA))). Qed.
+Print Assumptions C16_hist_example.
